@@ -11,3 +11,4 @@ from . import config_init  # noqa
 from . import diff  # noqa
 from . import rewrite_lines  # noqa
 from . import parts  # noqa
+from . import v1version  # noqa
